@@ -23,6 +23,8 @@ struct V {
   long failures_seen = 0;
   bool unwind = false;  // the failed allocation was not the first one of its operation
   long ops = 0, failed_ops = 0;
+  long reused = 0;  // objects used again after one of their operations had been refused
+  void note(const char *) { reused++; }
   void fail(const std::string &s, const std::string &m) {
     if (ok) {
       ok = false;
@@ -587,7 +589,9 @@ static void sc_io(const Case &c) {
             K().get(lfd)->acc.push_back(a1);
             if (was) K().arm_acc(*K().get(lfd));
             r->cookie = s_network_accept(lfd, io_cb_int, r.get());
-          } else
+          } else if (A(1) & 1)  // with a per-address timeout: a timer is registered next to the socket
+            r->cookie = s_network_connect_timeo(s_mkaddrs_static(4000), 30, io_cb_int, r.get());
+          else
             r->cookie = s_network_connect(s_mkaddrs_static(4000), io_cb_int, r.get());
           if (!r->cookie) {
             MUST_BE_INJECTED(sc, "network_* request");
@@ -770,6 +774,7 @@ static void sc_netbuf(const Case &c) {
   void *R = nullptr, *W = nullptr;
   bool r_dead = false, w_dead = false, waiting = false;
   static uint8_t wb[9000];
+  std::vector<std::pair<std::string, int>> writes;
   for (auto &op : c) {
     if (!VV->ok) break;
     auto A = [&](size_t i) -> int64_t { return i < op.a.size() ? op.a[i] : 0; };
@@ -821,12 +826,42 @@ static void sc_netbuf(const Case &c) {
       }
     } else if (op.k == "write" && W && !w_dead) {
       size_t l = (size_t)std::min<int64_t>(std::max<int64_t>(A(0), 0), 9000);
+      std::string wd = prbytes(500 + writes.size(), l);
+      if (l) memcpy(wb, wd.data(), l);
       OpScope sc;
       int rc = s_nw_write(W, wb, l);
+      writes.push_back({wd, rc});
       if (rc != 0) {
         MUST_BE_INJECTED(sc, "netbuf_write_write");
-        w_dead = true;
+        // a refused write is an error of that call, not the end of the writer: once the allocator has recovered the application carries on
+        if (aw::S().persistent) w_dead = true;
+        else VV->note("writer used again after a refused write");
       }
+    } else if (op.k == "reserve" && W && !w_dead) {
+      // the zero-copy form of a write: reserve, fill, consume
+      size_t l = (size_t)std::min<int64_t>(std::max<int64_t>(A(0), 0), 9000);
+      std::string wd = prbytes(500 + writes.size(), l);
+      OpScope sc;
+      uint8_t *p = s_nw_reserve(W, l);
+      if (!p) {
+        MUST_BE_INJECTED(sc, "netbuf_write_reserve");
+        if (aw::S().persistent) w_dead = true;
+        else VV->note("writer used again after a refused reserve");
+      } else {
+        if (l) memcpy(p, wd.data(), l);
+        int rc = s_nw_consume(W, l);
+        writes.push_back({wd, rc});
+        if (rc != 0) {
+          MUST_BE_INJECTED(sc, "netbuf_write_consume");
+          if (aw::S().persistent) w_dead = true;
+        }
+      }
+    } else if (op.k == "wbreak") {
+      // the connection breaks in the sending direction: the next send() fails (the writer's failure callback, then silent discarding)
+      OutItem e;
+      e.t = OUT_ERR;
+      e.err = EPIPE;
+      K().push_out(fd, e);
     } else if (op.k == "run") {
       if (!(waiting || (W && !w_dead))) continue;
       int before = nb_cbs;
@@ -845,6 +880,29 @@ static void sc_netbuf(const Case &c) {
           r_dead = true;
       }
     }
+  }
+  // what the peer got: with the allocator working again the loop is given the chance to send what is queued; the bytes received must be a prefix
+  // of the writes in call order -- every accepted write in full, a refused one either in full or not at all -- never a stream with a hole
+  if (W && !w_dead && VV->ok && !writes.empty()) {
+    for (int i = 0; i < 60; i++) {
+      K().stuck = false;
+      if (s_events_run() != 0 || K().stuck) break;
+    }
+    const std::string &got = K().get(fd)->sent;
+    size_t pos = 0;
+    bool ended = false;
+    for (size_t i = 0; i < writes.size() && VV->ok && !ended; i++) {
+      const std::string &d = writes[i].first;
+      size_t n = std::min(d.size(), got.size() - pos);
+      bool match = got.compare(pos, n, d, 0, n) == 0;
+      if (writes[i].second != 0 && !(match && n == d.size())) continue;  // the refused write was dropped as a whole
+      if (!match)
+        VV->fail("writer-stream-hole", "the peer received " + std::to_string(got.size()) + " bytes which are not a prefix of the writes in call order: at byte " + std::to_string(pos) + " write #" +
+                                           std::to_string(i) + " (" + std::to_string(d.size()) + " bytes, accepted) is missing or damaged (an earlier write of the writer had been refused for lack of memory)");
+      pos += n;
+      if (n < d.size()) ended = true;
+    }
+    if (VV->ok && !ended && pos != got.size()) VV->fail("writer-stream-extra", "the peer received " + std::to_string(got.size() - pos) + " bytes more than were written");
   }
   if (R) {
     OpScope sc;
@@ -1104,7 +1162,7 @@ typedef void (*Scenario)(const Case &);
 struct ChildRes {
   bool ok = false;
   std::string sig, msg;
-  long allocs = 0, failures = 0, ops = 0;
+  long allocs = 0, failures = 0, ops = 0, reused = 0;
   bool unwind = false, crashed = false;
 };
 static Scenario g_sc;
@@ -1117,7 +1175,7 @@ static void child_exit_handler() {
   if (v.ok && aw::live_count() != 0)
     v.fail("leak", std::to_string(aw::live_count()) + " library allocations (" + std::to_string(aw::live_bytes()) + " bytes) still live at exit after all objects were released");
   Case out;
-  out.push_back(Op("v", {v.ok, aw::S().calls, aw::S().failures, v.unwind, v.ops}, v.msg));
+  out.push_back(Op("v", {v.ok, aw::S().calls, aw::S().failures, v.unwind, v.ops, v.reused}, v.msg));
   out.push_back(Op("s", {}, v.sig));
   std::string t = to_text(out);
   size_t off = 0;
@@ -1180,6 +1238,7 @@ static ChildRes run_child(Scenario sc, const Case &c, long k, bool persistent) {
   cr.failures = oc[0].a[2];
   cr.unwind = oc[0].a[3];
   cr.ops = oc[0].a[4];
+  if (oc[0].a.size() > 5) cr.reused = oc[0].a[5];
   cr.msg = oc[0].b;
   cr.sig = oc[1].b;
   return cr;
@@ -1220,6 +1279,7 @@ static Outcome run_enum(const Case &c, Scenario sc, const char *name) {
       o.weight++;
       o.counters[mode ? "faulted_runs_persistent" : "faulted_runs_single"]++;
       if (r.failures == 0) o.counters["fault_not_reached"]++;
+      if (r.reused) o.counters["runs_using_an_object_again_after_a_refused_operation"]++;
       if (r.unwind) {
         o.digests.push_back(h0 * 1000003ULL + (uint64_t)k * 2 + (uint64_t)mode);
         o.nontrivial = true;
@@ -1299,8 +1359,26 @@ int main(int argc, char **argv) {
        });
      },
      sc_pool);
-  mk("netbuf", "buffered reader/writer init, wait (incl. buffer growth), write (incl. > 4096) and events_run; a reader/writer whose call failed is only released.",
-     [](int) { return gen_ops({{2, "rinit"}, {3, "wait"}, {2, "winit"}, {3, "write"}, {4, "run"}}, 16, 9000); }, sc_netbuf);
+  mk("netbuf", "buffered reader/writer init, wait (incl. buffer growth), write and reserve+consume (incl. > 4096), a connection that breaks in the sending direction, and events_run; a writer is used again after a refused write or reserve (single-failure mode) and what the peer received must be a prefix of the writes.",
+     [](int) {
+       return rc::gen::exec([]() -> Case {
+         if (*range<int>(0, 3)) return *gen_ops({{2, "rinit"}, {3, "wait"}, {2, "winit"}, {3, "write"}, {2, "reserve"}, {1, "wbreak"}, {4, "run"}}, 16, 9000);
+         // one case in four: a writer whose connection has broken (failure callback delivered) keeps being written to, with sizes on both sides of
+         // its 4096-byte buffers -- the state an application is in between the failure callback and its own clean-up
+         Case c;
+         auto sz = []() { return *rc::gen::elementOf(std::vector<int>{0, 10, 100, 4000, 4096, 4097, 5000, 6000, 9000}); };
+         c.push_back(Op("winit", {0, 0, 0}));
+         c.push_back(Op(*range<int>(0, 1) ? "write" : "reserve", {sz(), 0, 0}));
+         c.push_back(Op("wbreak", {0, 0, 0}));
+         c.push_back(Op("run", {0, 0, 0}));
+         c.push_back(Op("run", {0, 0, 0}));
+         int n = *range<int>(2, 6);
+         for (int i = 0; i < n; i++) c.push_back(Op(*range<int>(0, 2) ? "reserve" : "write", {sz(), 0, 0}));
+         if (*range<int>(0, 1)) c.push_back(Op("run", {0, 0, 0}));
+         return c;
+       });
+     },
+     sc_netbuf);
   mk("addr", "sock_resolve of IPv4/IPv6/Unix literals, sock_addr_dup/serialize/deserialize/prettyprint (asprintf) and humansize (asprintf).",
      [](int) { return gen_ops({{5, "addr"}, {2, "human"}}, 8, 9); }, sc_addr);
   mk("aes", "AES key expansions (128/256), block encryptions, AES-CTR streams and frees; outputs are compared with OpenSSL's AES (a key object obtained while an allocation failed must still be right).",
